@@ -44,6 +44,9 @@ func GenHTML(t *Tape) *Scenario {
 	nPages := 1 + c.N(3)
 	for pi := 0; pi < nPages; pi++ {
 		host := c.Host()
+		if c.Chance(1, 3) {
+			host += c.Pick(":8080", ":8443", ":81") // pages served on an explicit non-default port
+		}
 		other := c.Host()
 		dir := "/" + c.Name("d") + "/" + c.Name("s") + "/"
 		pagePath := dir + c.Name("page") + ".html"
